@@ -145,8 +145,8 @@ class CurveDriver(hist.Driver):
                     val = cn.norm({"approach": 0, "retract": 1}.get(v, v))
                 if k == "range_x" and idnt.fit_properties.get(
                         "optimal_fit_edelta") and "range_x" in \
-                        pre["settings"] and cn.norm(
-                            idnt.fit_properties["range_x"][1]) == val[1]:
+                        pre["settings"] and max(
+                            idnt.fit_properties["range_x"]) == max(v):
                     continue    # documented: lower bound ignored
                 if k == "params_initial" and v is None:
                     continue    # None = "estimate them"
@@ -369,6 +369,7 @@ BROAD_OPS = [
     F(range_type="bogus"),                              # raises
     F(preprocessing=P1),
     F(preprocessing_options=O_FCL),            # options without the steps
+    F(preprocessing_options={}),               # ... back to the defaults
     ["E", "weight_cp", 0],
     ["E", "gcf_k", 0.5],
     ["E", "range_x", [-5e-7, 1e-6]],
@@ -394,6 +395,7 @@ class Plateau(CurveDriver):
         F(range_x=[-5e-7, 1e-6]),
         F(range_x=[-8e-7, 1e-6]),
         F(range_x=[-5e-7, 5e-7]),
+        F(range_x=[6e-7, 0]),                       # inverted interval
         ["E", "optimal_fit_num_samples", 9],
         ["E", "range_x", [-6e-7, 1e-6]],
         ["M"],
